@@ -222,6 +222,31 @@ def error_discipline_rule(ctx, rule):
                        'handler for %s %s and guards write-side effects %s' % (
                            names, 're-raises' if reraises else 'does NOT re-raise', body_effects or '(none)'),
                        m.loc(h))
+    # exceptional paths must not perform write-side steps, and `finally` must not swallow
+    nfin = 0
+    for mod, q in ROUTE_FUNCS:
+        m = repo[mod]
+        f = m.func(q)
+        for t in [s for s in iter_child_stmts(f.body) if isinstance(s, ast.Try)]:
+            regions = [('finally', t.finalbody)] + [('except', h.body) for h in t.handlers]
+            for kind, body in regions:
+                if not body:
+                    continue
+                nfin += 1
+                for st in iter_child_stmts(body):
+                    if kind == 'finally' and isinstance(st, (ast.Return, ast.Break, ast.Continue)):
+                        ctx.ob(rule, '%s.%s:finally-does-not-swallow-the-exception' % (mod, q), False,
+                               '`%s` inside a finally block discards the in-flight exception: a failed write-side step '
+                               'would be reported as success' % norm(st), m.loc(st))
+                    for c in ast.walk(st) if not isinstance(st, (ast.If, ast.For, ast.While, ast.Try, ast.With)) else []:
+                        if isinstance(c, ast.Call) and (callee(c) in (
+                                'self._write_common_metadata', 'write_common_metadata', 'write_multi', 'make_part_file',
+                                'partition_on_columns') or fx.classify(c) in ('MKDIR', 'REMOVE', 'RENAME') or (
+                                fx.classify(c) == 'OPEN' and fx.writable(fx.mode_of(c)))):
+                            ctx.ob(rule, '%s.%s:no-write-side-step-on-the-exceptional-path:%s' % (mod, q, callee(c)), False,
+                                   '%s runs inside a %s block, i.e. also after a part-file step has failed; the summary '
+                                   'would then be rewritten for a partially written append' % (norm(c)[:50], kind), m.loc(c))
+    ctx.ob(rule, 'append-route:exceptional-regions-scanned', True, '%d except/finally regions' % nfin, '', nontrivial=False)
     ctx.stat('%s handlers on the append route' % rule, n)
     ctx.note('%s handlers examined: %s' % (rule, '; '.join(listed)))
     # off-route sites that do wrap REMOVE are listed for the record
